@@ -287,4 +287,8 @@ def run(ctx):
         "PARTIAL: the theorems hold for every interleaving of the LTS (induction over steps); that the running proxy is "
         "inside the LTS is checked per recorded run (trace inclusion), which is testing; the scheduler is the runtime's",
         "the LTS is tied to the code by gen/tables g11 (order of registration / defers / closing checks / lock scope) and by the runs above",
+        "trace predicates 1-8, 10, 14 are theorems of the LTS (T11_every_run_satisfies_the_trace_predicates) and are evaluated on the recorded "
+        "traces as a cross-check; predicates 9, 11, 12, 13, 15 (quiescence, what clients received) and forwarder's run() sequence seen from "
+        "outside are evaluated only; liveness is proved as 'no deadlock' plus 'boundedly many handler steps once closing is set', fairness of "
+        "the scheduler is not modelled; the exported gauge is modelled separately (Gauge.v) and tied by tables, not by trace inclusion",
     ])
